@@ -188,6 +188,21 @@ Proof.
   rewrite E. reflexivity.
 Qed.
 
+(* nesting: the projector of a prefix fixes the interface vectors of every LONGER prefix of the same train (range(U_k) is contained in
+   range(U_j (x) I) for j <= k), hence A_j A_k = A_k: the nesting hypothesis of the projector theorems comes with the train structure *)
+Theorem kernelL_nested (pre mid : tt R) i m q : linked 1 pre -> Forall left_orth pre -> length i = length pre ->
+  sum_idx (shape pre) (fun j => kernelL pre i j * chainM (slices (pre ++ mid) (j ++ m)) 0%nat q)
+  = chainM (slices (pre ++ mid) (i ++ m)) 0%nat q.
+Proof.
+  intros Hl Hall Hi.
+  assert (Hsplit : forall j, length j = length pre ->
+            chainM (slices (pre ++ mid) (j ++ m)) 0%nat q = sum_n (endrank 1 pre) (fun p => chainM (slices pre j) 0%nat p * chainM (slices mid m) p q)).
+  { intros j Hj. rewrite slices_app2 by exact Hj. rewrite (chainM_app _ _ 1%nat) by lia. rewrite lastk_slices by exact Hj. reflexivity. }
+  rewrite (Hsplit i Hi).
+  rewrite <- (kernelL_fixes pre (fun p => chainM (slices mid m) p q) i Hl Hall).
+  apply sum_idx_ext. intros j Hj _. unfold shape in Hj. rewrite map_length in Hj. rewrite (Hsplit j Hj). reflexivity.
+Qed.
+
 End OrthP.
 
 (* ---- the mirror image: trains read from the right (rl_orthogonal) ---- *)
